@@ -157,6 +157,13 @@ func walk(w *world, block *types.Block, obs []*txObs) error {
 				w.stored = map[string][]byte{string(gov): o.GovRaw}
 				for _, t := range block.Transactions {
 					w.stored[string(ongKey(t.Payer))] = get(ov, ongKey(t.Payer))
+					if dc, ok := t.Payload.(*payload.DeployCode); ok {
+						a := dc.Address()
+						for _, p := range []scom.DataEntryPrefix{scom.ST_CONTRACT, scom.ST_DESTROYED} {
+							k := append([]byte{byte(p)}, a[:]...)
+							w.stored[string(k)] = get(ov, k)
+						}
+					}
 				}
 			}
 			if tx.TxType != types.InvokeNeo {
